@@ -89,6 +89,8 @@ class Flight:
         frame = sys._getframe(1)
         rec = self.live.get(frame)
         if rec is None:
+            if frame.f_lasti >= 0 and code.co_code[frame.f_lasti] == YIELD_VALUE:
+                return  # suspended at a yield: it started before recording began - not ours to account for
             # exception thrown into a generator that never started: the frame is entered here for the first time
             self._start(code, offset, frame)
             rec = self.live.get(frame)
